@@ -19,6 +19,7 @@ import (
 	"verifharness/kit/sim"
 
 	"github.com/sarchlab/akita/v5/mem/dram"
+	"github.com/sarchlab/akita/v5/mem/memcontrolprotocol"
 	"github.com/sarchlab/akita/v5/messaging"
 	"github.com/sarchlab/akita/v5/modeling"
 	"github.com/sarchlab/akita/v5/noc/directconnection"
@@ -44,6 +45,10 @@ type caseCfg struct {
 	Stack  sim.StackCfg `json:"stack"`
 	Var    variant      `json:"variant"`
 	Shapes []string     `json:"shapes"`
+	// control traffic: a Reset before the first request, or after ResetAt responses once everything outstanding
+	// has been answered (drivers halted meanwhile). The controller must behave like a freshly built one afterwards.
+	ResetFirst bool `json:"reset_before_traffic,omitempty"`
+	ResetAt    int  `json:"reset_after_responses,omitempty"`
 }
 
 var presets = []string{"DDR3", "DDR4", "DDR5", "HBM2", "HBM3", "GDDR6"}
@@ -200,6 +205,13 @@ func genCase(rng *rand.Rand, idx, numReqs int) caseCfg {
 		cc.Stack.Drivers = append(cc.Stack.Drivers, ds)
 		cc.Shapes = append(cc.Shapes, fmt.Sprintf("%s/pids%d", shape, ds.NumPIDs))
 	}
+	switch rng.Intn(4) {
+	case 0:
+		cc.ResetFirst = true
+	case 1:
+		cc.ResetAt = 20 + rng.Intn(numReqs/2)
+	}
+	cc.Stack.WithCtrl = cc.ResetFirst || cc.ResetAt > 0
 	return cc
 }
 
@@ -231,6 +243,13 @@ func build(cc caseCfg, dir string) *sim.Stack {
 		d := sim.BuildDriver(s.Sim, fmt.Sprintf("Driver%d", i), ds, pb)
 		s.Drivers = append(s.Drivers, d)
 		conn.PlugIn(d.GetPortByName("Mem"))
+	}
+	if cfg.WithCtrl {
+		s.Ctrl = sim.BuildCtrlDriver(s.Sim, "CtrlDriver", pb)
+		cconn := directconnection.MakeBuilder().WithRegistrar(s.Sim).Build("CtrlConn")
+		s.Conns = append(s.Conns, cconn)
+		cconn.PlugIn(s.Ctrl.GetPortByName("Ctrl"))
+		cconn.PlugIn(c.GetPortByName("Control"))
 	}
 	return s
 }
@@ -272,6 +291,7 @@ func main() {
 			"tight/act-act-other-bank(tRRD)", "tight/fifth-act(tFAW)", "tight/rd-pre(tRTP)", "tight/wr-pre(tWR)",
 			"tight/wra-act(tWR+tRP)", "tight/rd-rd(tCCD)", "tight/wr-wr(tCCD)",
 			"reads_checked_against_flat_memory", "column_cmds_matched_to_requested_access_units",
+			"resets_before_traffic", "resets_mid_run_at_quiescence", "cmds_after_a_reset",
 		},
 	})
 }
@@ -300,7 +320,7 @@ func runCase(c *kit.Case, cc caseCfg) {
 	cur = m
 	defer func() { cur = nil }()
 
-	total := 0
+	total, nRsp, halted := 0, 0, false
 	for _, d := range s.Drivers {
 		total += d.Spec().NumReqs
 		d := d
@@ -308,6 +328,40 @@ func runCase(c *kit.Case, cc caseCfg) {
 			c.Fail("dram/data/"+key, map[string]any{"msg": msg, "driver": d.Name(), "cfg": cc})
 		}
 		d.OnIssue = func(req sim.InflightReq, _ messaging.Msg) { m.expect(req) }
+		d.OnRsp = func(sim.RspEvent) {
+			nRsp++
+			if cc.ResetAt > 0 && nRsp == cc.ResetAt {
+				for _, x := range s.Drivers {
+					x.State.Halt = true
+				}
+				halted = true
+			}
+		}
+	}
+	// reset sends a Reset to the idle controller and waits for the acknowledgment; the monitor forgets its
+	// bank and timing state, as the controller is documented to.
+	reset := func(when string) bool {
+		ctrl := comp.GetPortByName("Control").AsRemote()
+		n := len(s.Ctrl.Acks)
+		s.Ctrl.Send(sim.CtrlCmd{Dst: ctrl, Command: memcontrolprotocol.CmdReset})
+		for i := 0; i < 10 && len(s.Ctrl.Acks) == n; i++ {
+			if err := s.Engine.RunUntil(s.Engine.CurrentTime() + timing.VTimeInPicoSec(2000)*comp.Spec().Freq.Period()); err != nil {
+				c.Failf("dram/engine-error", "%v", err)
+				return false
+			}
+		}
+		if len(s.Ctrl.Acks) != n+1 || !s.Ctrl.Acks[n].Rsp.Success {
+			c.Fail("dram/reset-not-acknowledged", map[string]any{"when": when, "acks": s.Ctrl.Acks[n:], "cfg": cc})
+			return false
+		}
+		m.reset()
+		r.Count("resets_"+when, 1)
+		return true
+	}
+	if cc.ResetFirst {
+		if !reset("before_traffic") {
+			return
+		}
 	}
 	s.Start()
 	// bounded progress: stop when everything is answered, or when no response
@@ -332,6 +386,25 @@ func runCase(c *kit.Case, cc caseCfg) {
 		n, all := completed()
 		if all {
 			break
+		}
+		if halted {
+			out := 0
+			for _, d := range s.Drivers {
+				out += len(d.State.Inflight)
+			}
+			if out == 0 {
+				halted = false
+				if !reset("mid_run_at_quiescence") {
+					return
+				}
+				limit = s.Engine.CurrentTime()
+				for _, d := range s.Drivers {
+					d.State.Halt = false
+					d.TickLater()
+				}
+				last, stale = n, 0
+				continue
+			}
 		}
 		if n == last {
 			stale++
